@@ -14,6 +14,10 @@ from units import vmat
 from units.vC16 import strip_macro_stmts, err_to_none
 
 PATH = "src/interpreter/src/state_machines.rs"
+FSM_LOCALS = ['step', 'transitioned', 'arm_idx', 'arm', 'pattern', 'transitions', 'arm_env', 'matched', 'previous_state', 'out', 'value', 'guards', 'pattern_matched', 'guard_idx', 'guard', 'guard_passes', 'cond', 'x']
+APPLY_LOCALS = ['transition', 'next_pattern', 'output_pattern', 'stmt', 'code', 'line']
+TARGET_LOCALS = ['target', 'pattern', 'state_name']
+COV_LOCALS = ['arm', 'transitions', 'guards', 'guard', 'transition']
 
 
 def _model():
@@ -83,6 +87,7 @@ def fsm_body(text):
     sig, body = extract_fn(text, "execute_fsm_pipe_impl")
     b = re.sub(r"//[^\n]*", "", body).replace("\r", "").strip()[1:-1]
     b = strip_macro_stmts(b, "trace_println")
+    b = vlib.canon_bindings(sig, b, ["fsm", "state", "call_env", "p"], FSM_LOCALS)
     rev = {}
 
     def hdr(m):
@@ -164,6 +169,7 @@ def apply_fn(text):
     sig, body = extract_fn(text, "apply_transitions")
     b = re.sub(r"//[^\n]*", "", body).replace("\r", "").strip()[1:-1]
     b = strip_macro_stmts(b, "trace_println")
+    b = vlib.canon_bindings(sig, b, ["transitions", "state", "env", "p"], APPLY_LOCALS)
     b, n1 = re.subn(r"for\s+(\w+)\s+in\s+transitions\s*\{", r"for t_ in 0..transitions.len() { let \1 = &transitions[t_];", b)
     b, n2 = re.subn(r"for\s+\((\w+),\s*_\)\s+in\s+code\s*\{", r"for c_ in 0..code.len() { let \1 = &code[c_].0;", b)
     if (n1, n2) != (1, 1):
@@ -203,6 +209,7 @@ def target_fn(text):
     """`validate_transition_target_state`, whole body: `return Err(..)` -> `return None`, `Ok(())` -> `Some(())`; `HashSet<String>` is an opaque set."""
     sig, body = extract_fn(text, "validate_transition_target_state")
     b = re.sub(r"//[^\n]*", "", body).replace("\r", "").strip()[1:-1]
+    b = vlib.canon_bindings(sig, b, ["transition", "fsm", "state_names", "fsm_pipe"], TARGET_LOCALS)
     b = re.sub(r"\bOk\s*\(", "Some(", b)
     b = err_to_none(b)
     if re.search(r"\b(Ok|Err|MechError)\b", b):
@@ -252,6 +259,7 @@ def coverage_fn(text):
     if not a:
         raise AnchorLost("validate_fsm_state_coverage: the loop over fsm.arms not found")
     b = re.sub(r"//[^\n]*", "", body[a.start():body.rindex("}")]).replace("\r", "")
+    b = vlib.canon_bindings(sig, b, ["fsm", "fsm_pipe"], COV_LOCALS)
     ml = re.search(r"let\s+transitions\s*=\s*match\s+arm\s*\{", b)
     if not ml:
         raise AnchorLost("validate_fsm_state_coverage: `let transitions = match arm {` not found")
